@@ -960,3 +960,135 @@ func (c *Ctx) parentByIdentity(rule string, funcs []*FuncInfo, clause string) in
 	}
 	return n
 }
+
+// NO-NEIGHBOUR-TAIL: the neighbour and branch lists of a node have no fixed place for the parent
+// (re-rooting, un-rooting, grafting and tip removal re-orient branches and leave the lists as they
+// are). No walk therefore takes a positional tail of such a list (`n.br[1:]`, `n.Neigh()[1:]`,
+// `n.Edges()[2:]`: a constant place) to "skip the branch we come from": after an edit it skips a child instead and
+// walks back up through the parent. The way back is recognised by identity or by orientation.
+func (c *Ctx) noNeighbourTail(rule string, funcs []*FuncInfo, clause string) int {
+	loops := 0
+	bad := 0
+	for _, fi := range funcs {
+		if fi == nil || fi.Decl.Body == nil {
+			continue
+		}
+		info := fi.Pkg.TypesInfo
+		isList := func(e ast.Expr) bool {
+			switch x := unparen(e).(type) {
+			case *ast.SelectorExpr:
+				if (x.Sel.Name == "br" || x.Sel.Name == "neigh") && isNodePtr(info.TypeOf(x.X)) {
+					return true
+				}
+			case *ast.CallExpr:
+				if h := calleeOf(info, x); h != nil && (isRepoFunc(h, "tree", "Node", "Neigh") || isRepoFunc(h, "tree", "Node", "Edges")) {
+					return true
+				}
+			}
+			return false
+		}
+		ast.Inspect(fi.Decl.Body, func(nd ast.Node) bool {
+			switch x := nd.(type) {
+			case *ast.RangeStmt:
+				if isList(x.X) {
+					loops++
+				}
+			case *ast.SliceExpr:
+				if !isList(x.X) || x.Low == nil {
+					return true
+				}
+				// only a constant place counts (`[1:]`); `append(l[:i], l[i+1:]...)` removes the entry
+				// found by identity at i
+				if tv, has := info.Types[x.Low]; !has || tv.Value == nil || constKey(tv.Value) == "0" {
+					return true
+				}
+				bad++
+				c.Violation(rule, fmt.Sprintf("%s/tail#%d", funcName(fi.Obj), bad), x.Pos(), fmt.Sprintf("%s takes the positional tail `%s` of a node's neighbour/branch list: the parent is not at a fixed place in these lists once the tree has been re-rooted or edited, so a child is skipped and the walk goes back up through the parent (branches go missing from the enumeration, or are listed twice)", fi.Obj.Name(), c.src(x))).Clause = clause
+			}
+			return true
+		})
+	}
+	if bad == 0 {
+		c.OK(rule, "scan", token.NoPos, fmt.Sprintf("%d loops over neighbour/branch lists, no positional tail of such a list anywhere", loops)).Clause = clause
+	}
+	return loops
+}
+
+// DEFER-AFTER-CHECK: `x, ..., err := open(...)` hands back a nil x together with the error. A
+// `defer x.Close()` (any deferred method call on an interface-typed x) written before the test of that error
+// dereferences nil when the input cannot be opened (an empty or truncated .gz file fails while its
+// header is read): the reader panics instead of reporting the error.
+func (c *Ctx) deferAfterCheck(rule string, funcs []*FuncInfo, clause string) int {
+	n := 0
+	seenDefers := 0
+	defer func() {
+		c.OK(rule, "scan", token.NoPos, fmt.Sprintf("%d deferred method calls on variables examined, %d of them on an interface value that came with an error", seenDefers, n)).Clause = clause
+	}()
+	for _, fi := range funcs {
+		if fi == nil || fi.Decl.Body == nil {
+			continue
+		}
+		info := fi.Pkg.TypesInfo
+		ast.Inspect(fi.Decl.Body, func(nd ast.Node) bool {
+			blk, ok := nd.(*ast.BlockStmt)
+			if !ok {
+				return true
+			}
+			for j, st := range blk.List {
+				df, isDf := st.(*ast.DeferStmt)
+				if !isDf {
+					continue
+				}
+				sel, isSel := df.Call.Fun.(*ast.SelectorExpr)
+				if !isSel {
+					continue
+				}
+				x := identObj(info, sel.X)
+				if x == nil {
+					continue
+				}
+				seenDefers++
+				// a method call on a nil interface panics; (*os.File)(nil).Close() returns an error
+				if _, isIface := x.Type().Underlying().(*types.Interface); !isIface {
+					continue
+				}
+				// the assignment that produced x together with an error, earlier in this block
+				for i := j - 1; i >= 0; i-- {
+					as, isAs := blk.List[i].(*ast.AssignStmt)
+					if !isAs || len(as.Lhs) < 2 || len(as.Rhs) != 1 {
+						continue
+					}
+					var errObj types.Object
+					hasX := false
+					for _, l := range as.Lhs {
+						o := identObj(info, l)
+						if o == x {
+							hasX = true
+						} else if o != nil && isErrorType(o.Type()) {
+							errObj = o
+						}
+					}
+					if !hasX {
+						continue
+					}
+					if errObj == nil {
+						break
+					}
+					n++
+					key := fmt.Sprintf("%s/defer %s.%s", funcName(fi.Obj), x.Name(), sel.Sel.Name)
+					tested := false
+					for k := i + 1; k < j; k++ {
+						if ifs, isIf := blk.List[k].(*ast.IfStmt); isIf && mentions(info, ifs.Cond, errObj) {
+							tested = true
+						}
+					}
+					c.Check(tested, rule, key, df.Pos(), "the deferred call is registered after the error of the call that produced `"+x.Name()+"` has been tested",
+						fmt.Sprintf("`defer %s.%s()` is registered before `%s` is tested: when the input cannot be opened `%s` is nil and the deferred call panics at return instead of the error being reported", x.Name(), sel.Sel.Name, errObj.Name(), x.Name())).Clause = clause
+					break
+				}
+			}
+			return true
+		})
+	}
+	return n
+}
